@@ -3,7 +3,7 @@
    ss = the suites in the order the Go map range visits them (any order), cs = the config cases
    (a list standing for a set), mode = the run mode; all three are universally quantified. *)
 From Coq Require Import Permutation.
-From V Require Import C07_Model C07_Spec C07_Proofs.
+From V Require Import C07_Model C07_Spec C07_Proofs C07_Names.
 Open Scope N_scope.
 
 (* A permutation exists exactly when the suite's mode admits the run mode, every directive admits
@@ -108,6 +108,31 @@ Print Assumptions library_built_iff.
 Theorem parse_mode : forall s he, parse_allows s he = true <-> parse_ok s he.
 Proof. exact parse_mode_proof. Qed.
 Print Assumptions parse_mode.
+
+(* the axis-value names the code prints (tables regenerated from the compiled enums) are pairwise
+   distinct, decided by computation on the finite tables ... *)
+Theorem axis_names_injective :
+  (forall a b, In a (declared c07_protocol_names) -> In b (declared c07_protocol_names) ->
+     enum_name c07_protocol_names a = enum_name c07_protocol_names b -> a = b) /\
+  (forall a b, In a (declared c07_codec_names) -> In b (declared c07_codec_names) ->
+     enum_name c07_codec_names a = enum_name c07_codec_names b -> a = b) /\
+  (forall a b, In a (declared c07_compression_names) -> In b (declared c07_compression_names) ->
+     enum_name c07_compression_names a = enum_name c07_compression_names b -> a = b) /\
+  (forall a b, In a declared_versions -> In b declared_versions -> dec a = dec b -> a = b).
+Proof. exact axis_names_injective_proof. Qed.
+Print Assumptions axis_names_injective.
+
+(* ... hence the name components are an injective function of exactly the open axes (and the test
+   name) on the cases a suite admits: equal components, same test stream type => the same config case.
+   _partial: stated on the component list; the last step through path.Join (components of suite and
+   test names free of "/", "." and "..") is not proved. *)
+Theorem components_injective_partial : forall s c c' t t',
+  admits s c -> admits s c' -> case_declared c -> case_declared c' ->
+  t_stream t = c_stream c -> t_stream t' = c_stream c' ->
+  spec_components s c t = spec_components s c' t' ->
+  t_name t = t_name t' /\ (t_stream t = t_stream t' -> c = c').
+Proof. exact components_injective_proof. Qed.
+Print Assumptions components_injective_partial.
 
 (* ---- non-vacuity ---- *)
 Definition ex_tc := mkT (bs "unary/success") 1 [] [] false false.
